@@ -448,9 +448,16 @@ fn parse_err_line(err: &digital_test_runner::errors::ParseError, src: &str) -> S
     let valid = err.at.iter().all(|s| {
         s.start <= s.end && s.end <= src.len() && src.is_char_boundary(s.start) && src.is_char_boundary(s.end)
     });
+    // ... and what the error hands to a renderer through miette's Diagnostic::labels() are these very locations
+    let labels_same = {
+        use miette::Diagnostic;
+        let got: Vec<(usize, usize)> = err.labels().map(|it| it.map(|l| (l.offset(), l.len())).collect()).unwrap_or_default();
+        let want: Vec<(usize, usize)> = err.at.iter().map(|s| (s.start, s.end.saturating_sub(s.start))).collect();
+        got == want
+    };
     let line = format!(
         "PARSE err {name}{detail} {spans}\nSPANS {}",
-        if valid { "valid" } else { "INVALID" }
+        if !valid { "INVALID" } else if !labels_same { "INVALID labels() differ from `at`" } else { "valid" }
     );
     line
 }
@@ -651,6 +658,18 @@ fn api_check_row(row: &digital_test_runner::DataRow<'_>) {
             api_issue(format!("Display of output {} / expected {}", outval_s(r.output), expval_s(r.expected)));
         }
     }
+    // == on the public types is the derived, structural one: everything equals its own copy
+    #[allow(clippy::eq_op)]
+    if row.clone() != *row
+        || row.outputs.iter().any(|r| r.clone() != *r || r.output != r.output.clone() || r.expected != r.expected.clone())
+        || row.inputs.iter().any(|e| e.clone() != *e || e.value != e.value.clone())
+        || OutputValue::X != OutputValue::X
+        || OutputValue::Z != OutputValue::Z
+        || ExpectedValue::X != ExpectedValue::X
+        || InputValue::Z != InputValue::Z
+    {
+        api_issue("a row, entry or value is not equal (==) to its own clone".to_string());
+    }
     let failing: Vec<*const _> = row.failing_outputs().map(|r| r as *const _).collect();
     let want: Vec<*const _> = row.outputs.iter().filter(|r| !r.check()).map(|r| r as *const _).collect();
     if failing != want {
@@ -734,8 +753,56 @@ fn out(buf: &mut String, s: &str) {
 
 /// parse (under catch_unwind); prints the PARSE line and, on success, what the parse result
 /// shows through its public fields
+/// Texts that look like `src` to a careless comparison: the same words and the same number of lines with a blank
+/// line moved, the same length with one digit changed, one row exchanged with its neighbour.  They are parsed (and the
+/// results dropped) right before the case's own text: a parse is a function of ITS text, whatever was parsed before.
+fn decoys(src: &str) -> Vec<String> {
+    let mut out = vec![];
+    let lines: Vec<&str> = src.split('\n').collect();
+    // a blank line moved one line up or down (line count and word sequence unchanged)
+    if let Some(i) = (1..lines.len().saturating_sub(1)).find(|&i| lines[i].trim().is_empty() && !lines[i + 1].trim().is_empty()) {
+        let mut l = lines.clone();
+        l.swap(i, i + 1);
+        out.push(l.join("\n"));
+    }
+    if let Some(i) = (2..lines.len()).rev().find(|&i| lines[i].trim().is_empty() && !lines[i - 1].trim().is_empty()) {
+        let mut l = lines.clone();
+        l.swap(i, i - 1);
+        out.push(l.join("\n"));
+    }
+    // no blank line to move: one inserted after the header and the last line break dropped (same number of lines)
+    if out.is_empty() && lines.len() > 2 {
+        let mut l = lines.clone();
+        l.insert(1, "");
+        if l.last() == Some(&"") {
+            l.pop();
+        }
+        out.push(l.join("\n"));
+    }
+    // same length, one decimal digit changed (the last one of the text)
+    if let Some(i) = src.rfind(|ch: char| ch.is_ascii_digit()) {
+        let mut bytes = src.as_bytes().to_vec();
+        bytes[i] = if bytes[i] == b'1' { b'0' } else { b'1' };
+        if let Ok(t) = String::from_utf8(bytes) {
+            out.push(t);
+        }
+    }
+    // two neighbouring non-blank lines after the header exchanged
+    if let Some(i) = (1..lines.len().saturating_sub(1)).find(|&i| !lines[i].trim().is_empty() && !lines[i + 1].trim().is_empty() && lines[i] != lines[i + 1]) {
+        let mut l = lines.clone();
+        l.swap(i, i + 1);
+        out.push(l.join("\n"));
+    }
+    out
+}
+
 fn do_parse(c: &Case, buf: &mut String) -> Option<ParsedTestCase> {
     let src = c.src.clone();
+    if src.len() < 20_000 {
+        for d in decoys(&src) {
+            let _ = catch_unwind(AssertUnwindSafe(|| ParsedTestCase::from_str(&d).map(|_| ()).map_err(|_| ())));
+        }
+    }
     match catch_unwind(AssertUnwindSafe(|| ParsedTestCase::from_str(&src))) {
         Err(p) => {
             out(buf, &format!("PARSE panic # {}", panic_msg(&p)));
@@ -1406,7 +1473,7 @@ fn run_case(c: &Case) -> String {
                                 }
                             }
                             // ... and so are by_ref().take(k), size_hint(), fold() and last(): same items, same calls
-                            if c.seed % 5 >= 2 && c.seed % 5 <= 3 && buf.lines().any(|l| l == "END none")
+                            if c.seed % 5 != 1 && buf.lines().any(|l| l == "END none")
                                 && (c.cont || !buf.lines().any(|l| l.starts_with("ITEM err") || l.starts_with("NEW err")))
                             {
                                 let main_items: Vec<String> = buf
@@ -1490,6 +1557,13 @@ fn adapt_check<D: TestDriver<Error = DrvError>>(c: &Case, tc: &TestCase, driver:
                 break;
             }
         }
+    } else if c.seed % 5 == 4 {
+        // count() visits every item (and makes every call); the items themselves are not seen
+        let n = it.count();
+        return if n == main_items.len() { String::new() } else { format!("count() = {n} with {} items", main_items.len()) };
+    } else if c.seed % 5 == 0 {
+        let last = it.last().map(line);
+        return if last.as_ref() == main_items.last() { String::new() } else { format!("last() = {:.60?} vs {:.60?}", last, main_items.last()) };
     } else {
         let limit = main_items.len() + 2;
         got = it.fold(Vec::new(), |mut acc, item| {
